@@ -530,6 +530,10 @@ class MoveModule:
             raise exceptions.RefactoringError(
                 "Move destination for modules should be packages."
             )
+        if self.source.is_folder() and (
+            dest == self.source or self.source.contains(dest)
+        ):
+            raise exceptions.RefactoringError("Cannot move a package into itself.")
         return self._calculate_changes(dest, resources, task_handle)
 
     def _calculate_changes(self, dest, resources, task_handle):
